@@ -10,4 +10,10 @@ static int gnutls_sign_sha_hmac(jwt_t *jwt, char **out, unsigned int *len, const
 static int gnutls_sign_sha_pem(jwt_t *jwt, char **out, unsigned int *len, const char *str, unsigned int str_len);
 static int gnutls_verify_sha_pem(jwt_t *jwt, const char *head, unsigned int head_len, unsigned char *sig, int sig_len);
 #endif
+/* C06 ("... or leak"): the one heap object the GnuTLS verify entry creates by hand -- the DER form of an ECDSA r||s
+ * signature (gnutls_encode_rs_value) -- is released exactly once on EVERY exit, accepting or rejecting.  (Leaks in
+ * general are not decided: cleanup handlers do not run in cbmc; this buffer is freed by an explicit call.) */
+extern unsigned g_rs_freed;
+DECL_OPS_VERIFY_SHA_PEM_X(contract_C06_gnutls_verify_sha_pem, GATE_PEM_FULL,
+	__CPROVER_ensures(g_rs_buf == NULL || g_rs_freed == 1));
 #endif
